@@ -15,6 +15,7 @@ import (
 	"reflect"
 	"runtime"
 	"slices"
+	"strings"
 	"time"
 
 	"github.com/btcsuite/btcd/btcec/v2"
@@ -610,9 +611,17 @@ func (m *Mint) RequestMeltQuote(meltQuoteRequest nut05.PostMeltQuoteBolt11Reques
 	quoteAmount := invoiceSatAmount
 
 	// check if a mint quote exists with the same invoice.
-	_, err = m.db.GetMintQuoteByPaymentHash(bolt11.PaymentHash)
+	mintQuote, err := m.db.GetMintQuoteByPaymentHash(bolt11.PaymentHash)
 	isInternal := false
 	if err == nil {
+		// only the invoice the mint issued for that quote can be settled internally.
+		// Anyone can build another invoice with the same payment hash (e.g. for a
+		// lower amount), which would otherwise settle the whole mint quote.
+		if !strings.EqualFold(mintQuote.PaymentRequest, request) {
+			return storage.MeltQuote{}, cashu.BuildCashuError(
+				"invoice has the payment hash of a mint quote but is not the invoice of that quote",
+				cashu.MeltQuoteErrCode)
+		}
 		isInternal = true
 	}
 
@@ -862,7 +871,7 @@ func (m *Mint) MeltTokens(ctx context.Context, meltTokensRequest nut05.PostMeltB
 	// before asking backend to send payment, check if quotes can be settled
 	// internally (i.e mint and melt quotes exist with the same invoice)
 	mintQuote, err := m.db.GetMintQuoteByPaymentHash(meltQuote.PaymentHash)
-	if err == nil {
+	if err == nil && strings.EqualFold(mintQuote.PaymentRequest, meltQuote.InvoiceRequest) {
 		m.logDebugf("quotes '%v' and '%v' have same invoice so settling them internally", meltQuote.Id, mintQuote.Id)
 		settledQuote, err := m.settleQuotesInternally(mintQuote, meltQuote)
 		if err != nil {
